@@ -13,7 +13,7 @@ import signal
 
 from simkit import simproc
 
-SIZES = (0, 1, 7, 100, 1023, 1024, 1025, 2048, 3000, 4095, 4096, 4097, 9000, 65535, 65536, 65537, 200000)
+SIZES = (0, 1, 7, 100, 1023, 1024, 1025, 2048, 3000, 4095, 4096, 4097, 9000, 65535, 65536, 65537, 140000)
 SIZE_W = (3, 3, 3, 8, 6, 6, 6, 4, 8, 4, 4, 4, 6, 2, 2, 2, 1)
 TEXT_CLASSES = ("lines", "oneline", "utf8", "esc", "crlf")
 ALL_CLASSES = TEXT_CLASSES + ("binary",)
@@ -126,6 +126,8 @@ def gen_stage(rng, idx, nstages, is_last, tag, slow=False, allow_alias=True, all
                 st["mode"] = "write"
             if st["payload"]["n"] > 20000 and st["chunk"] < 50:
                 st["chunk"] = 1000
+            if st["payload"]["n"] > 20000 and st["mode"] == "print":
+                st["mode"] = "write"  # thousands of print() calls only burn the step budget
     return st
 
 
@@ -163,6 +165,17 @@ def fix_pipeline(stages):
             st["kind"] = "alias"
         if st["kind"] == "uproc" and i != n - 1:
             st["kind"] = "proc"
+    # bound the work of byte-at-a-time filters (keeps runs inside the step budget)
+    try:
+        outs = model_outputs(stages)
+    except Exception:
+        outs = None
+    if outs is not None:
+        for i, st in enumerate(stages):
+            if i and st["role"] == "filter" and st.get("rs", 4096) < 1024 and len(outs[i - 1]) / st["rs"] > 2500:
+                st["rs"] = 4096
+                if st["kind"] in ("proc", "uproc"):
+                    st["script"] = [[a[0], 4096, *a[2:]] if a[0] == "cat" else a for a in st["script"]]
     # an alias filter reads text with universal newlines: upstream must not contain CR / binary
     for i, st in enumerate(stages):
         if st["kind"] in ("alias", "ualias") and st["role"] in ("filter", "head"):
